@@ -1,6 +1,7 @@
 import WuffsVerif.Common.Line
 import WuffsVerif.Model.Lzma
 import WuffsVerif.Model.LzmaWuffs
+import WuffsVerif.Model.XzWuffs
 /-! Line driver for C17 (lib/litonlylzma).  Bytes are lower-case hex, `-` = empty.
   enc lzma|xz <hex>            -> ok <hex>
   dec lzma|xz <hex>            -> ok <hex-data> rest=<n> err=<class>
@@ -12,8 +13,8 @@ import WuffsVerif.Model.LzmaWuffs
   encraw <hex> -> ok <hex> ;  decraw <size> <hex> -> ok <hex-data> rest=<n> err=<class>
   uvenc <n> -> <hex> ;  uvdec <hex> -> <x> <ok> rest=<n>
   crc <hex> -> <decimal>
-  wdec lzma|lzma2 <hex> -> ok <hex-data> rest=<n> | fail <status> <hex-data> | unmodelled <why> <hex-data>
-                           (Model/LzmaWuffs.lean: the Wuffs std/lzma decoder, literal path)
+  wdec lzma|lzma2|xz <hex> -> ok <hex-data> rest=<n> | fail <status> <hex-data> | unmodelled <why> <hex-data>
+                           (Model/LzmaWuffs.lean, Model/XzWuffs.lean: the Wuffs std/lzma (literal path) and std/xz decoders)
 -/
 open WuffsVerif WuffsVerif.Line WuffsVerif.Lzma
 
@@ -103,7 +104,8 @@ def c17Step (l : List String) : String :=
     | none => "bad-op"
     | some src =>
       let r := if f == "lzma" then some (WLzma.decodeLzma1 src)
-               else if f == "lzma2" then some (WLzma.decodeLzma2 src) else none
+               else if f == "lzma2" then some (WLzma.decodeLzma2 src)
+               else if f == "xz" then some (WXz.decodeXz src) else none
       match r with
       | none => "bad-op"
       | some (.ok out rest) => s!"ok {showHex out} rest={rest.length}"
